@@ -20,10 +20,12 @@ import (
 )
 
 type Token struct {
-	ID   int
-	Kind string // "int", "uint", "float", "time", "dur", "b64", "fmt"
-	Val  *Term
-	Bits int
+	ID     int
+	Kind   string // "int", "uint", "float", "time", "dur", "b64", "fmt"
+	Val    *Term
+	Bits   int
+	first  int32                       // id of the first byte variable of the token
+	render func(ev *evaluator) string // what the real library prints for the token's bytes under a model
 }
 
 func (p *Path) tokenOf(b value) *Token {
@@ -43,6 +45,9 @@ func (p *Path) newToken(kind string, val *Term, bits int) *Token {
 func (p *Path) tokByte(tk *Token, ranges ...[2]byte) value {
 	b := p.freshInternal("tok"+tk.Kind, types.Uint8)
 	p.tokens[b.t.id] = tk
+	if tk.first == 0 {
+		tk.first = b.t.id
+	}
 	c := tFalse
 	for _, r := range ranges {
 		c = mkOr(c, mkAnd(mkCmp(OpUle, mkConst(8, uint64(r[0])), b.t), mkCmp(OpUle, b.t, mkConst(8, uint64(r[1])))))
@@ -84,48 +89,50 @@ func (p *Path) intToken(v sym, signed bool, fr *frame) []value {
 	if signed && fr.cond(valueOf(mkCmp(OpSlt, val, mkConst(64, 0)), types.Bool)) {
 		out = append(out, byte('-'))
 	}
-	// one-digit or multi-digit rendering (the latter represented by two digit bytes)
-	single := mkCmp(OpUlt, val, mkConst(64, 10))
-	if signed {
-		single = mkAnd(mkCmp(OpSlt, val, mkConst(64, 10)), mkCmp(OpSlt, mkConst(64, ^uint64(9)), val))
+	// the magnitude is one token byte standing for the whole digit string (zap observes only that something
+	// was appended and what the last byte is); observations render the real digits
+	tk.render = func(ev *evaluator) string {
+		v := ev.eval(val)
+		if signed {
+			s := strconv.FormatInt(int64(v), 10)
+			return strings.TrimPrefix(s, "-")
+		}
+		return strconv.FormatUint(v, 10)
 	}
 	out = append(out, p.tokByte(tk, digit))
-	if !fr.cond(valueOf(single, types.Bool)) {
-		out = append(out, p.tokByte(tk, digit))
-	}
 	return out
 }
 
-func (p *Path) floatToken(f sym, bits int, fr *frame) []value {
+func (p *Path) floatToken(f sym, bits int, fr *frame, fmtByte byte) []value {
 	w, _ := kindInfo(f.k)
 	t := f.t
-	isNaN := mkNot(mkFCmp(OpFEq, t, t))
-	if fr.cond(valueOf(isNaN, types.Bool)) {
-		return bytesToValues([]byte("NaN"))
-	}
-	inf := mkConst(w, f2fbits(math.Inf(1), w))
-	ninf := mkConst(w, f2fbits(math.Inf(-1), w))
-	if fr.cond(valueOf(mkEq(t, inf), types.Bool)) {
-		return bytesToValues([]byte("+Inf"))
-	}
-	if fr.cond(valueOf(mkEq(t, ninf), types.Bool)) {
-		return bytesToValues([]byte("-Inf"))
+	if !fpFinite(t) {
+		isNaN := mkNot(mkFCmp(OpFEq, t, t))
+		if fr.cond(valueOf(isNaN, types.Bool)) {
+			return bytesToValues([]byte("NaN"))
+		}
+		inf := mkConst(w, f2fbits(math.Inf(1), w))
+		ninf := mkConst(w, f2fbits(math.Inf(-1), w))
+		if fr.cond(valueOf(mkEq(t, inf), types.Bool)) {
+			return bytesToValues([]byte("+Inf"))
+		}
+		if fr.cond(valueOf(mkEq(t, ninf), types.Bool)) {
+			return bytesToValues([]byte("-Inf"))
+		}
 	}
 	tk := p.newToken("float", t, w)
 	var out []value
-	signbit := mkEq(mkExtract(t, w-1, w-1), mkConst(1, 1))
+	signbit := fpSignTerm(t)
 	if fr.cond(valueOf(signbit, types.Bool)) {
 		out = append(out, byte('-'))
 	}
-	// digit+ ( '.' digit+ )?   or with exponent: digit ('.' digit+)? 'e' [+-] digit digit
-	out = append(out, p.tokByte(tk, digit))
-	switch p.choose(3, "") {
-	case 0:
-	case 1:
-		out = append(out, byte('.'), p.tokByte(tk, digit))
-	case 2:
-		out = append(out, byte('e'), p.tokByte(tk, [2]byte{'+', '+'}, [2]byte{'-', '-'}), p.tokByte(tk, digit), p.tokByte(tk, digit))
+	tk.render = func(ev *evaluator) string {
+		f := fbits2f(ev.eval(t), w)
+		s := strconv.FormatFloat(f, fmtByte, -1, bits)
+		return strings.TrimPrefix(s, "-")
 	}
+	_ = fmtByte
+	out = append(out, p.tokByte(tk, digit))
 	return out
 }
 
@@ -186,14 +193,14 @@ func init() {
 					f = sym{s.t.a, types.Float32}
 				}
 			}
-			return append(dst, fr.i.p.floatToken(f, bits, fr)...)
+			return append(dst, fr.i.p.floatToken(f, bits, fr, args[2].(byte))...)
 		}
 		return append(dst, bytesToValues(strconv.AppendFloat(nil, args[1].(float64), args[2].(byte), args[3].(int), bits))...)
 	}
 	I["strconv.FormatFloat"] = func(fr *frame, args []value) value {
 		bits := args[3].(int)
 		if s, ok := args[0].(sym); ok {
-			return mkStr(fr.i.p.floatToken(s, bits, fr))
+			return mkStr(fr.i.p.floatToken(s, bits, fr, args[1].(byte)))
 		}
 		return strconv.FormatFloat(args[0].(float64), args[1].(byte), args[2].(int), bits)
 	}
@@ -242,6 +249,15 @@ func init() {
 		// symbolic payload: token bytes over the base64 alphabet, padded length 4*ceil(n/3)
 		p := fr.i.p
 		tk := p.newToken("b64", nil, len(src))
+		srcCopy := append([]value{}, src...)
+		tk.render = func(ev *evaluator) string {
+			b := make([]byte, len(srcCopy))
+			for i, e := range srcCopy {
+				t, _ := termOf(e)
+				b[i] = byte(ev.eval(t))
+			}
+			return base64.StdEncoding.EncodeToString(b)
+		}
 		n := (len(src) + 2) / 3 * 4
 		out := make([]value, n)
 		for i := range out {
@@ -260,12 +276,15 @@ func init() {
 		if s, ok := args[0].(sym); ok {
 			p := fr.i.p
 			tk := p.newToken("dur", s.t, 64)
+			tk.render = func(ev *evaluator) string {
+				return strings.TrimPrefix(time.Duration(int64(ev.eval(s.t))).String(), "-")
+			}
 			// e.g. "1.5s", "0s", "-2h3m": digits, units, sign, dot
 			out := []value{}
 			if fr.cond(valueOf(mkCmp(OpSlt, s.t, mkConst(64, 0)), types.Bool)) {
 				out = append(out, byte('-'))
 			}
-			out = append(out, p.tokByte(tk, digit), p.tokByte(tk, [2]byte{'a', 'z'}, [2]byte{'.', '.'}, digit), byte('s'))
+			out = append(out, p.tokByte(tk, digit), p.tokByte(tk, [2]byte{'a', 'z'}, [2]byte{'.', '.'}, digit), p.tokByte(tk, [2]byte{'s', 's'}))
 			return mkStr(out)
 		}
 		return time.Duration(args[0].(int64)).String()
@@ -358,6 +377,18 @@ func timeFormat(fr *frame, t value, layout value) value {
 	p := fr.i.p
 	wall, _ := termOf(st[0])
 	tk := p.newToken("time", wall, 64)
+	stCopy := append(structure{}, st...)
+	tk.render = func(ev *evaluator) string {
+		c := make(structure, len(stCopy))
+		for i, e := range stCopy {
+			if se, ok := e.(sym); ok {
+				c[i] = valueOf(mkConst(int(se.t.w), ev.eval(se.t)), se.k)
+			} else {
+				c[i] = e
+			}
+		}
+		return nativeTime(fr, c).Format(l)
+	}
 	n := len(l)
 	if n > 6 {
 		n = 6
@@ -640,7 +671,7 @@ func (c *fmtCtx) nativePlain(v value, t types.Type) interface{} {
 		p := c.fr.i.p
 		if isFloatKind(x.k) {
 			w, _ := kindInfo(x.k)
-			return c.hole(p.floatToken(x, w, c.fr))
+			return c.hole(p.floatToken(x, w, c.fr, 'g'))
 		}
 		if x.k == types.Bool {
 			if c.fr.cond(x) {
@@ -747,4 +778,27 @@ func fmtCall(fr *frame, kind string, format value, args []value) value {
 		out = out[i+j+1:]
 	}
 	return mkStr(res)
+}
+
+// fpSignTerm is the condition "the sign bit of t is set", pushed through sign-preserving operations.
+func fpSignTerm(t *Term) *Term {
+	switch t.op {
+	case OpFFromS:
+		return mkCmp(OpSlt, t.a, mkConst(int(t.a.w), 0))
+	case OpFFromU:
+		return tFalse
+	case OpFCvt:
+		if fpFinite(t.a) {
+			return fpSignTerm(t.a)
+		}
+	case OpFDiv:
+		if t.b.op == OpConst && fpFinite(t.a) {
+			c := fbits2f(t.b.val, int(t.b.w))
+			if c > 0 && !math.IsInf(c, 0) {
+				return fpSignTerm(t.a)
+			}
+		}
+	}
+	w := int(t.w)
+	return mkEq(mkExtract(t, w-1, w-1), mkConst(1, 1))
 }
